@@ -38,6 +38,7 @@ func (k Keeper) BeginBlocker(ctx sdk.Context) {
 			k.SetOffset(ctx, offset+uint64(params.NumberPerBlock))
 		}
 
+		verifPositionProcessed(ctx, "lev.sweep.start", "", 0)
 		for _, position := range positions {
 			pool, found := k.GetPool(ctx, position.AmmPoolId)
 			if !found {
@@ -52,11 +53,13 @@ func (k Keeper) BeginBlocker(ctx sdk.Context) {
 
 			isHealthy, closeAttempted, _, err := k.CheckAndLiquidateUnhealthyPosition(ctx, position, pool, ammPool)
 			if err == nil {
+				verifPositionProcessed(ctx, "lev.sweep", position.Address, position.Id)
 				continue
 			}
 			if isHealthy && !closeAttempted {
 				_, _, _ = k.CheckAndCloseAtStopLoss(ctx, position, pool, ammPool)
 			}
+			verifPositionProcessed(ctx, "lev.sweep", position.Address, position.Id)
 		}
 	}
 }
